@@ -74,12 +74,18 @@ class CallMixin:
     # ------------------------------------------------------------------
     def inline(self, func, selfterm, args, kw, st, fx, node, outer_env=None, bound=True):
         """Inline a repository function; yields (status, term, state)."""
-        if func.qual in st.frames or len(st.frames) >= self.inline_depth:
+        if func.qual not in st.frames and len(st.frames) >= self.inline_depth:
+            # never judge code that was not looked at: a call chain deeper than the inlining bound is an analysis failure
+            raise AnalysisError("inlining bound %d exhausted at %s:%d calling %s (chain %s)" % (
+                self.inline_depth, fx.func.file, getattr(node, "lineno", 0), func.qual, " > ".join(q.split(".")[-1] for q in st.frames)))
+        if func.qual in st.frames:
             self.emit(st, fx, "NOINLINE", node, func=func.qual)
             yield "ok", ("call", ("func", func), tuple(args)), st
             return
         params = list(func.params)
         binds = {}
+        if func.is_static:
+            bound = False
         if bound and params and params[0] == "self":
             binds["self"] = selfterm
             params = params[1:]
@@ -144,7 +150,7 @@ class CallMixin:
             return
         if k == "func":
             func = f[1]
-            if func.cls is not None:
+            if func.cls is not None and not func.is_static:
                 # Class.method(self, ...) explicit receiver
                 if not args:
                     yield "raise", self.exc(st, "TypeError", "self"), st
@@ -164,6 +170,9 @@ class CallMixin:
             name = f[1]
             if name in BUILTIN_EXC:
                 yield "ok", ("exc", name, tuple(args), st.uid()), st
+                return
+            if name == "len" and args and is_const(args[0]) and isinstance(args[0][1], (tuple, str, bytes)):
+                yield "ok", const(len(args[0][1])), st
                 return
             if name == "len" and args and isinstance(args[0], tuple) and args[0][0] in ("list", "tuple"):
                 yield "ok", const(len(args[0][1])), st
@@ -335,6 +344,26 @@ class CallMixin:
             self.emit(st, fx, "REGTOPCALL", node, reg=recv[1], name=name, args=tuple(args))
             yield "ok", ("call", f, tuple(args)), st
             return
+        # constant mapping consulted with .get(key[, default]): every value, or the default on a miss
+        if name == "get" and isinstance(recv, tuple) and recv[0] == "constobj" and args:
+            try:
+                v = self.constobj_value(recv)
+            except Exception:
+                v = None
+            if isinstance(v, dict):
+                key = args[0]
+                dflt = args[1] if len(args) > 1 else NONE
+                if is_const(key):
+                    yield "ok", (const(v[key[1]]) if key[1] in v else dflt), st
+                    return
+                s_miss = st.fork()
+                self.emit(s_miss, fx, "CONSTMAP", node, obj=recv, key=key, hit=False, how="get")
+                yield "ok", dflt, s_miss
+                for k in v:
+                    s_k = st.fork()
+                    self.emit(s_k, fx, "CONSTMAP", node, obj=recv, key=key, hit=True, kval=k, val=v[k], how="get")
+                    yield "ok", const(v[k]), s_k
+                return
         # deferred firing
         if name in ("callback", "errback") and self._is_deferred(recv):
             self.emit(st, fx, "FIRE", node, dfr=recv, how=name, arg=args[0] if args else NONE,
@@ -354,7 +383,7 @@ class CallMixin:
             yield "ok", NONE, st
             return
         if name == "start" and isinstance(recv, tuple) and (recv[0] == "loopcall" or
-                                                           (recv[0] == "attr" and recv[2] in ("timer",))):
+                                                           (recv[0] == "attr" and recv[2] in self.prog.field_roles()["loop"])):
             tgt = st.heap.get((recv, "target"), ("unk", "looptarget"))
             self.emit(st, fx, "ARM", node, handle=recv, delay=args[0] if args else NONE, target=tgt, args=(),
                       how="LoopingCall.start", delaynode=node.args[0] if node.args else None)
@@ -409,6 +438,12 @@ class CallMixin:
                     self.emit(s2, fx, "LOOKUP", node, key=key, hit=False, how="pop", **common)
                     yield "raise", self.exc(s2, "KeyError", key), s2
                 t = ("elem", reg, key)
+                if len(args) >= 2 and (reg, key) not in st.hits:
+                    s2 = st.fork()
+                    self.emit(s2, fx, "LOOKUP", node, key=key, hit=False, how="pop", **common)
+                    yield "ok", args[1], s2
+                if (reg, key) not in st.hits:
+                    self.emit(st, fx, "LOOKUP", node, key=key, hit=True, how="pop", **common)
                 self.emit(st, fx, "UNREG", node, key=key, how="pop(key)", elem=t, **common)
                 st.hits.discard((reg, key))
             else:
@@ -430,7 +465,13 @@ class CallMixin:
             yield "ok", NONE, st
         elif name == "get":
             key = args[0] if args else NONE
-            self.emit(st, fx, "LOOKUP", node, key=key, hit=None, how="get", **common)
-            yield "ok", ("maybe", ("elem", reg, key), args[1] if len(args) > 1 else NONE), st
+            dflt = args[1] if len(args) > 1 else NONE
+            if (reg, key) not in st.hits:
+                s2 = st.fork()
+                self.emit(s2, fx, "LOOKUP", node, key=key, hit=False, how="get", **common)
+                yield "ok", dflt, s2
+            self.emit(st, fx, "LOOKUP", node, key=key, hit=True, how="get", **common)
+            st.hits.add((reg, key))
+            yield "ok", ("elem", reg, key), st
         else:
             yield "ok", ("call", ("attr", recv, name), tuple(args)), st
